@@ -63,16 +63,15 @@ let parse toks = match toks with
   | ["obs"] -> Obs
   | ["count"] -> Count
   | _ -> failwith "bad command"
-(* Which tree the model mirrors.  Default: the pinned tree with its four deviations (Data/Prop.v [pinned]).
-   Once the fix commits are in /repo set the switches to false (= [repaired]); for trying a patched scratch
-   copy (check.py --repo) the environment variable C14_MODEL=repaired does the same without editing. *)
+(* Which tree the model mirrors.  Default: the repaired behaviour (Data/Prop.v [repaired]); the environment
+   variable C14_MODEL=pinned selects the four deviations of the originally pinned tree (for replaying old findings). *)
 let tree_quirks =
   match OSys.getenv_opt "C14_MODEL" with
-  | Some "repaired" -> repaired
-  | _ -> { q_resize_first = true;        (* PropertyHDF5::values resizes before the per-element type check *)
-           q_create_late_check = true;   (* createProperty(name, vector) creates before the mixed types are found *)
-           q_accept_unholdable = true;   (* createProperty(name, DataType) accepts Int8/Int16/UInt8/UInt16/Float/Opaque *)
-           q_ro_unc_leak = true }        (* a refused uncertainty(d) on a read-only file shows through until close *)
+  | Some "pinned" -> { q_resize_first = true;        (* PropertyHDF5::values resized before the per-element type check *)
+                       q_create_late_check = true;   (* createProperty(name, vector) created before the mixed types were found *)
+                       q_accept_unholdable = true;   (* createProperty(name, DataType) accepted Int8/Int16/UInt8/UInt16/Float/Opaque *)
+                       q_ro_unc_leak = true }        (* a refused uncertainty(d) on a read-only file showed through until close *)
+  | _ -> repaired    (* the four deviations were repaired in /repo (fix: commits b9b9717 491c620 2f44815 945de75) *)
 let ms = ref fresh
 let ss = ref afresh
 let handle toks =
